@@ -1,5 +1,5 @@
 import MpdProofs.Lemmas.Conn
-import MpdProofs.Lemmas.Resume
+import MpdProofs.Lemmas.Flaky
 /-!
 # C02 — parsed responses do not depend on how the byte stream is split into reads
 
@@ -182,5 +182,36 @@ example : (recvLoopA .initial [] [str "foo: bar\n"] (.ioerr 2)).1 = .io 2 ∧
       (recvLoopA .initial [] [str "foo: bar\n"] (.ioerr 2)).2.1 [str "x: y\nOK\n"] .eof).1 =
       (recvLoopA .initial [] [str "foo: bar\nx: y\nOK\n"] .eof).1 := by
   decide +kernel
+
+/-! ### any number of failed reads, anywhere (async connection)
+
+A caller that simply calls `receive` again after every reported read failure (`recvRetryA`,
+`sessionRetryA` in `Mpd/Conn.lean`): the pieces of the script between the failures behave like the
+script without the failures — per logical receive (item, buffer and builder state left behind, rest
+of the script) and for the whole session, which is therefore `decodeAll` of the bytes the peer sent. -/
+
+theorem C02_failed_reads_invisible_call (more : List Conn.Piece) (σ : BState) (buf : Bytes) (cs : List Bytes) (t : Term)
+    (hio : IoChain t more) :
+    (recvRetryA σ buf cs t more).1 = (recvLoopA σ buf (flatScript cs more) (lastTerm t more)).1 ∧
+    (recvRetryA σ buf cs t more).2.1 = (recvLoopA σ buf (flatScript cs more) (lastTerm t more)).2.1 ∧
+    (recvRetryA σ buf cs t more).2.2.1 = (recvLoopA σ buf (flatScript cs more) (lastTerm t more)).2.2.2 :=
+  ⟨(recvRetryA_eq more σ buf cs t hio).1, (recvRetryA_eq more σ buf cs t hio).2.1, (recvRetryA_eq more σ buf cs t hio).2.2.1⟩
+
+theorem C02_failed_reads_invisible_session (fuel : Nat) (cs : List Bytes) (t : Term) (more : List Conn.Piece)
+    (hio : IoChain t more) (hne : NonEmptyChunks (flatScript cs more)) :
+    sessionRetryA fuel 0 .initial [] cs t more =
+      decodeAll fuel (flatScript cs more).flatten (lastTerm t more) := by
+  rw [sessionRetryA_eq fuel 0 .initial [] cs t more hio, C02_async fuel [] _ _ hne, List.nil_append]
+
+/-- non-vacuity: a time-out in the middle of a line, then two failures in a row after a consumed line,
+then the rest: the session is that of the unbroken stream -/
+example :
+    sessionRetryA 10 0 .initial [] [str "foo: b"] (.ioerr 2)
+        [([str "ar\nx: y\n"], .ioerr 3), ([], .ioerr 2), ([str "OK\nz: 1\nOK\n"], .eof)] =
+      decodeAll 10 (str "foo: bar\nx: y\nOK\nz: 1\nOK\n") .eof ∧
+    IoChain (.ioerr 2) [([str "ar\nx: y\n"], .ioerr 3), ([], .ioerr 2), ([str "OK\nz: 1\nOK\n"], Term.eof)] := by
+  constructor
+  · decide +kernel
+  · exact ⟨⟨2, rfl⟩, ⟨3, rfl⟩, ⟨2, rfl⟩, trivial⟩
 
 end Mpd.C02
